@@ -329,8 +329,52 @@ def agree(case: str, m: str, out: str) -> bool:
     return True
 
 
+def _direct_probes(prog, acc=None, owner=None):
+    """probe id -> the block whose body holds it *directly* (None at top level / inside try / in a spawned task's body
+    before any block)"""
+    acc = {} if acc is None else acc
+    for st in prog:
+        if st[0] == "probe":
+            acc[st[1]] = owner
+        elif st[0] == "block":
+            _direct_probes(st[5], acc, st)
+        elif st[0] == "try":
+            _direct_probes(st[1], acc, owner)
+        elif st[0] == "spawn":
+            _direct_probes(st[3], acc, None)    # the spawned task inherits the state; keep it simple: not judged here
+    return acc
+
+
+def visibility_failures(case: str, out: str) -> set[str]:
+    """'State yielded by disposables is visible inside the scope': a lookup made directly in the body of an async block
+    returns, for every type the block supplies (directly or through what its disposables yielded, in declaration order,
+    the last one winning), exactly that instance – whatever the instance's truthiness"""
+    fails = set()
+    owner = _direct_probes(json.loads(case)["prog"])
+    for e in sp.events(out):
+        if len(e) < 4 or e[1] != "probe":
+            continue
+        blk = owner.get(int(e[2]))
+        if blk is None or blk[1] != "async" or not blk[4]:
+            continue
+        want = {}
+        for ty, tag in blk[3]:
+            want[ty] = tag
+        for d in blk[4]:
+            for ty, tag in d[3]:
+                if ty >= 0:
+                    want[ty] = tag
+        got = e[3].split("/")[0].split(",")
+        for ty, tag in want.items():
+            if ty < len(got) and got[ty] != str(tag):
+                fails.add("disposables.yielded-state-not-visible")
+    return fails
+
+
 def monitor(case: str, out: str) -> list[str]:
     fails = set()
+    if '"retry"' not in case:
+        fails |= visibility_failures(case, out)
     for r in blocks_of(case, out):
         f = facts(r)
         if f["left"] is None:
